@@ -23,6 +23,7 @@ pub mod c16;
 pub mod c17;
 pub mod c18;
 pub mod c19;
+pub mod c20;
 
 pub struct Property {
     pub id: &'static str,
@@ -50,4 +51,5 @@ pub const ALL: &[Property] = &[
     Property { id: "C17", run: c17::run, replay: c17::replay },
     Property { id: "C18", run: c18::run, replay: c18::replay },
     Property { id: "C19", run: c19::run, replay: c19::replay },
+    Property { id: "C20", run: c20::run, replay: c20::replay },
 ];
